@@ -597,10 +597,13 @@ class Model:
                 const = np.array([0])
                 sense = np.array([1])
 
-            vtype = np.concatenate([np.array([item.vtype] * item.size)
-                                    if len(item.vtype) == 1
-                                    else np.array(list(item.vtype))
-                                    for item in self.vars + self.auxs])
+            # by position: variables declared after an earlier formulation
+            # start behind the auxiliary columns of that formulation
+            vtype = np.array(['C'] * self.last)
+            for item in self.vars + self.auxs:
+                vtype[item.first:item.first+item.size] = \
+                    (item.vtype if len(item.vtype) == 1
+                     else list(item.vtype))
 
             ub = np.array([np.inf] * self.last)
             lb = np.array([-np.inf] * self.last)
